@@ -12,8 +12,10 @@ from ..world import World, inventory, inv_brief
 
 ID = "C10"
 LEVEL = "exploration"
-BUDGET = {"quick": {"n": 250, "trunc_reports": 3, "wall_s": 420}, "thorough": {"n": 6000, "trunc_reports": 40, "wall_s": 3300}}
-RULE = ("(roundtrip) seeded worlds with hostile name alphabets incl. confusable siblings, --isolate roots with hostile "
+BUDGET = {"quick": {"n": 250, "trunc_reports": 3, "short_len": 2, "wall_s": 420}, "thorough": {"n": 6000, "trunc_reports": 40, "short_len": 3, "wall_s": 3300}}
+RULE = ("(short names, exhaustive) every string of 1..2 (thorough 1..3) symbols of a 17-symbol alphabet {space, tab, LF, CR, quotes, "
+        "backslash, $, *, #, comma, colon, an invalid UTF-8 byte, a 2-byte character, -, ., a} as a file name and as a directory "
+        "name, through the roundtrip below. (roundtrip) seeded worlds with hostile name alphabets incl. confusable siblings, --isolate roots with hostile "
         "names; `group` writes text and JSON; `remove --dry-run` reads each back: the sequence of raw paths it stats must "
         "equal the driver's independent parse of the JSON report, and the real `remove` on the text and on the JSON "
         "report must leave identical trees. (truncate) for scenario reports EVERY cut offset of the text report (JSON: "
@@ -23,8 +25,8 @@ RULE = ("(roundtrip) seeded worlds with hostile name alphabets incl. confusable 
         "partial report must be safe by the truncate rule. non-trivial = report has >= 1 group; distinct = distinct "
         "(kind, trace signature)")
 ASSUMPTIONS = [
-    "the codec is exercised as far as the world generator's name alphabets reach; bounded-exhaustive enumeration over all "
-    "short strings is a pure-function technique and is not performed",
+    "bounded-exhaustive part: every string of 1..2 (thorough: 1..3) symbols of a 17-symbol troublesome alphabet as a file "
+    "name and as a directory name, through the real writer and readers; longer names randomly from the world generator",
     "serial dedupe (RAYON_NUM_THREADS=1) so that the stat sequence is the report order",
 ]
 
@@ -59,8 +61,35 @@ def trunc_worlds(k):
     return ws[:k]
 
 
+SHORT_ALPHABET = [b" ", b"\t", b"\n", b"\r", b"'", b'"', b"\\", b"$", b"*", b"#", b",", b":", b"\x80", b"\xc3\xa9", b"-", b".", b"a"]
+
+
+def short_name_worlds(maxlen, per_world=40):
+    """EVERY string of 1..maxlen symbols of SHORT_ALPHABET as a file name (even worlds) or as a directory
+    name (odd worlds), two copies each; bounded-exhaustive part of the quantifier, driven through the
+    real writer and the real readers."""
+    import itertools
+    names = []
+    for n in range(1, maxlen + 1):
+        for t in itertools.product(SHORT_ALPHABET, repeat=n):
+            nm = b"".join(t)
+            if nm not in (b".", b".."):
+                names.append(nm)
+    for wi in range(0, len(names), per_world):
+        w = World()
+        as_dir = (wi // per_world) % 2 == 1
+        for k, nm in enumerate(names[wi:wi + per_world]):
+            c = {"hex": (b"%07d" % (wi + k)).hex()}
+            for side in ("a", "b"):
+                w.add_file("r/%s/%s%s" % (side, b2s(nm), "/x" if as_dir else ""), c)
+        yield w
+
+
 def gen_cases(tier, seed):
     b = BUDGET[tier]
+    for wi, w in enumerate(short_name_worlds(b["short_len"])):
+        yield {"i": 2 * 10**6 + wi, "kind": "roundtrip", "cfg": None, "world": w.to_json(), "roots": ["r"],
+               "gflags": ["--hidden"], "seam_seed": 7}
     for i in range(b["n"]):
         rng = random.Random(stable_hash(seed, ID, i))
         cfg = gen.gen_cfg(rng, small=True, allow_cache=False)
